@@ -162,3 +162,33 @@ func (l *lazy) Contains(c model3d.Coord3D) bool {
 
 func (l *lazy) Min() model3d.Coord3D { return model3d.Coord3D{} }
 func (l *lazy) Max() model3d.Coord3D { return model3d.Coord3D{} }
+
+// clean:SPAWNJOIN
+func GatherSame(n int) int {
+	out := make(chan int, n)
+	for i := 0; i < n; i++ {
+		go func() {
+			out <- 1
+		}()
+	}
+	sum := 0
+	for i := 0; i < n; i++ {
+		sum += <-out
+	}
+	return sum
+}
+
+// want:SPAWNJOIN started with one count, gathered with another.
+func GatherOther(n, m int) int {
+	out := make(chan int, n)
+	for i := 0; i < m; i++ {
+		go func() {
+			out <- 1
+		}()
+	}
+	sum := 0
+	for i := 0; i < n; i++ {
+		sum += <-out
+	}
+	return sum
+}
